@@ -80,6 +80,19 @@ def be32 (a b c d : UInt8) : Int :=
     ((a.toNat * 16777216 + b.toNat * 65536 + c.toNat * 256 + d.toNat : Nat) : Int) - 4294967296
   else ((a.toNat * 16777216 + b.toNat * 65536 + c.toNat * 256 + d.toNat : Nat) : Int)
 
+/-- JSON insignificant white space -/
+def jsonWS (c : UInt8) : Bool := c = 32 || c = 9 || c = 10 || c = 13
+
+/-- `encoding/json.Unmarshal(body, &peerInfo)` in terms of the one thing that stays abstract: the
+parser of the FIRST JSON value, `value body = some (info, used)` (the value occupies the first
+`used` bytes) or `none` (syntax / type error). `Unmarshal` is handed exactly the declared
+`bodyLen` bytes and rejects anything but white space after the value ("invalid character … after
+top-level value"); a streaming decoder would accept the value and leave the rest behind. -/
+def unmarshal (value : List UInt8 → Option (Info × Nat)) (body : List UInt8) : Option Info :=
+  match value body with
+  | some iu => if (body.drop iu.2).all jsonWS then some iu.1 else none
+  | none => none
+
 /-- Which shape of `IDENTIFY` is modelled: `sizeCheck = false` is the code before fix F2
 (no check between reading the size and `make([]byte, bodyLen)`); `true` is the fixed code
 (`bodyLen > maxIdentifyBodySize` and `bodyLen <= 0` are refused with `E_BAD_BODY`). -/
